@@ -136,7 +136,7 @@ def oracle_c01(ctx, interp, case, res):
     ctx.interp_runs += 1
     if r[0] != "ok":
         ctx.fail(f"interpreter could not allocate/invoke the returned model: {r[0]} {str(r[1])[:160]}", case.replay(),
-                 "interp:" + re.sub(r"\d+", "N", str(r[1]))[:60])
+                 "interp:" + pl.interp_err_class(r))
 
 
 def io_should_be_float(q, mb):
@@ -218,6 +218,12 @@ def explore(ctx, drv, n, per_case, gen=gen_case, graph_corr=True, reserve_s=25, 
             if pipe_corr:
                 out = ("ok", res["out"]) if res["status"] == "ok" else ("raise", res.get("exc"))
                 res["model_resp"] = fmat.cmp_pipeline(ctx, drv, case.mb, res["q"], res.get("cr"), out)
+                nf = (res["model_resp"] or {}).get("nf")
+                if nf is not None:   # is this case inside the hypothesis NF of the end-to-end theorems? (NFCheck.nfOK, proved sound)
+                    bad = [k for k, v in nf.items() if not v]
+                    ctx.tag("nf_true" if not bad else "nf_false")
+                    for k in bad:
+                        ctx.tag("nf_false:" + k)
         try:
             per_case(case, res)
         except common.Timeout:
